@@ -160,6 +160,9 @@ pub enum Conv {
     AbsSign,
     /// NonZero<BoxedUint>::widen(+64)
     Widen,
+    /// NonZero<BoxedUint>::widen to the same precision / to one limb less (documented to panic)
+    WidenSame,
+    WidenSmaller,
     /// Odd<Uint<N>> -> Odd<BoxedUint> (From by value / by reference)
     ToBoxed,
     ToBoxedRef,
@@ -688,6 +691,31 @@ fn exec(plan: &Plan, out: &mut RunOut) {
                     (W::OddU4(o), Conv::AsRefNz) => guard(|| Some(W::NzU4(*AsRef::<NonZero<Uint<4>>>::as_ref(o)))),
                     (W::NzI2(n), Conv::AbsSign) => guard(|| Some(W::NzU2(n.abs_sign().0))),
                     (W::NzB(n), Conv::Widen) => guard(|| Some(W::NzB(n.widen(n.bits_precision() + 64)))),
+                    (W::NzB(n), Conv::WidenSame) => guard(|| Some(W::NzB(n.widen(n.bits_precision())))),
+                    (W::NzB(n), Conv::WidenSmaller) => {
+                        if n.bits_precision() <= 64 {
+                            continue;
+                        }
+                        // documented: panics if the requested precision is smaller than the current one
+                        match guard(|| n.widen(n.bits_precision() - 64)) {
+                            Guarded::Panic(_) => {
+                                out.count("expected-panic:widen-to-a-smaller-precision");
+                                continue;
+                            }
+                            Guarded::Done(w) => {
+                                out.viol(
+                                    "C11/missing-panic",
+                                    "NonZero<BoxedUint>::widen:smaller-precision".into(),
+                                    format!("widen({}) of a {}-bit value is documented to panic but returned {}", n.bits_precision() - 64, n.bits_precision(), hexw(&w.as_ref().to_words())),
+                                    None,
+                                );
+                                // whatever came back is a NonZero the caller now holds: judge it (truncation is the only value change to expect)
+                                pool.push(Member { w: W::NzB(w), born: ei, producer: "NonZero<BoxedUint>::widen(smaller)".into() });
+                                continue;
+                            }
+                            Guarded::Budget => continue,
+                        }
+                    }
                     (W::OddU1(o), Conv::ToBoxed) => guard(|| Some(W::OddB(Odd::<BoxedUint>::from(*o)))),
                     (W::OddU2(o), Conv::ToBoxed) => guard(|| Some(W::OddB(Odd::<BoxedUint>::from(*o)))),
                     (W::OddU4(o), Conv::ToBoxed) => guard(|| Some(W::OddB(Odd::<BoxedUint>::from(*o)))),
@@ -1265,7 +1293,7 @@ impl TypedScenario for Pool {
                 1 => Op::Select { a: r.below(64) as usize, b: r.below(64) as usize, choice: r.chance(1, 2), form: r.below(3) as u8 },
                 2 => Op::Convert {
                     src: r.below(64) as usize,
-                    kind: *r.pick(&[Conv::AsNzRef, Conv::AsRefNz, Conv::AbsSign, Conv::Widen, Conv::ToBoxed, Conv::ToBoxedRef, Conv::ViaMontyParams, Conv::ViaMontyParamsVartime, Conv::ViaMontyParamsSelect, Conv::Clone]),
+                    kind: *r.pick(&[Conv::AsNzRef, Conv::AsRefNz, Conv::AbsSign, Conv::Widen, Conv::WidenSame, Conv::WidenSmaller, Conv::Widen, Conv::ToBoxed, Conv::ToBoxedRef, Conv::ViaMontyParams, Conv::ViaMontyParamsVartime, Conv::ViaMontyParamsSelect, Conv::Clone]),
                 },
                 3 => Op::Random { carrier, wr, infallible: r.chance(1, 2), bits: *r.pick(&[0u32, 1, 2, 63, 64, 65, 128, 200]), tape: gen_rng_tape(&mut r, n.max(1)) },
                 4 => {
